@@ -36,6 +36,8 @@ ASSUME \A b \in [1 .. 3 -> 0 .. 3] : \A S \in 1 .. 9 : \A o \in 0 .. 2 : \A add 
           LimbQ(b, S, o, add, 4) = (LimbValue(b, 4) * S + add * 4 ^ o) \div 64
 ASSUME \A w \in Weights : (Good(w) /\ Len(w) <= 3) =>
           \A b \in [1 .. 3 -> 0 .. 3] : {FirstAbove(w, LimbQ(b, Total(w), 0, 0, 4))} = Owner(w, LimbValue(b, 4), 64)
+\* a boundary that coincides with the largest lattice point belongs to the upper channel (half-open intervals), also behind disabled ones
+ASSUME Owner(<<15, 1>>, 15, 16) = {2} /\ Owner(<<15, 1>>, 14, 16) = {1} /\ Owner(<<0, 15, 1, 0>>, 15, 16) = {3} /\ PickUpper(<<0, 15, 1, 0>>, 15, 16) = 3
 VARIABLE x
 Init == x = 0
 Next == x < 1 /\ x' = x + 1
